@@ -53,10 +53,23 @@ def cli_case(arg):
         os.makedirs(os.path.join(cwd, 'x.out'), exist_ok=True)
         argv.append('x.out/x.out')
         target = os.path.join(cwd, 'x.out', 'x.out')
-    env = dict(os.environ, PYTHONPATH=runner.repo_src())
+    # the command line runs from a private view of the source tree (a directory of symbolic links to the real files): whatever the run drops
+    # into the package directory lands in this execution's own directory, where it can be attributed to it (the real one is shared by all
+    # concurrent executions)
+    priv = os.path.join(root, 'src-view')
+    real_src = runner.repo_src()
+    os.makedirs(priv, exist_ok=True)
+    for top in os.listdir(real_src):
+        if top == 'geophires_x':
+            os.makedirs(os.path.join(priv, top), exist_ok=True)
+            for x in os.listdir(os.path.join(real_src, top)):
+                # (report-like files lying in the real package directory are some other run's droppings, not source: not linked)
+                if x != '__pycache__' and not x.endswith(('.out', '.json', '.html', '.csv', '.png')) and not os.path.lexists(os.path.join(priv, top, x)):
+                    os.symlink(os.path.join(real_src, top, x), os.path.join(priv, top, x))
+        elif not os.path.lexists(os.path.join(priv, top)):
+            os.symlink(os.path.join(real_src, top), os.path.join(priv, top))
+    env = dict(os.environ, PYTHONPATH=priv, PYTHONDONTWRITEBYTECODE='1')
     env.pop('GEOPHIRES_X_VERIF', None)
-    src_dir0 = os.path.join(runner.repo_src(), 'geophires_x')
-    before = {x: (os.stat(os.path.join(src_dir0, x)).st_mtime_ns if os.path.exists(os.path.join(src_dir0, x)) else None) for x in ('rel.html', 'x.out', 'HDR.out', 'HDR.json')}
     p = subprocess.run(argv, cwd=cwd, env=env, capture_output=True, text=True, timeout=600)
     out = {'rc': p.returncode, 'target': target, 'report': None, 'json_ok': None, 'stderr': p.stderr[-300:]}
     if os.path.isfile(target):
@@ -73,13 +86,15 @@ def cli_case(arg):
     # every file created anywhere under the scratch root (relative), to spot outputs landing elsewhere
     created = []
     for dp, dn, fn in os.walk(root):
+        if os.path.relpath(dp, root).split(os.sep)[0] == 'src-view':
+            continue
         for x in fn:
             created.append(os.path.relpath(os.path.join(dp, x), root))
     out['created'] = sorted(created)
-    src_dir = os.path.join(runner.repo_src(), 'geophires_x')
-    # files this run created or rewrote in the package directory (a file that was already there and is untouched is not this run's doing)
-    out['stray_in_src'] = [x for x in ('rel.html', 'x.out', 'HDR.out', 'HDR.json') if os.path.exists(os.path.join(src_dir, x))
-                           and os.stat(os.path.join(src_dir, x)).st_mtime_ns != before[x]]
+    # anything in the private package directory that is not one of the links: written there by this run
+    pkg = os.path.join(priv, 'geophires_x')
+    # (the program's own log file is configured - logging.conf - to live in the package directory; it is not an output of the run)
+    out['stray_in_src'] = sorted(x for x in os.listdir(pkg) if not os.path.islink(os.path.join(pkg, x)) and x != '__pycache__' and not x.endswith('.log'))
     return out
 
 
